@@ -131,6 +131,8 @@ def run(ctx):
                           [("horizon_differs_from_fit", lambda f, c: f.predict([1, 3]))]))
         for mkname, mk, faults in cands:
             for fname, fault in faults:
+                if kind == "F_fit" and plan[0] != "F_fit" and fname == "duplicate_horizon":
+                    continue      # a rejected HORIZON comes after the call's (valid) data were taken in: not claimed
                 c = VT.context(ctx.seed * 100 + pi % 5)
                 ctx.evaluations += 1
                 sc = {"plan": list(plan), "forecaster": mkname, "fault": fname}
@@ -157,14 +159,14 @@ def run(ctx):
             else:
                 ctx.violation({"sequence": rec["detail"]}, "fault sequence %s: %s" % (rec["detail"], rejects[rec["tid"]]))
     return ctx.finish(
-        rule="The Applicable table (182 entry-point x fault-class pairs over forecasters, composites, reducers, "
+        rule="The Applicable table (185 entry-point x fault-class pairs over forecasters, composites, reducers, "
              "splitters, evaluate, tuning, temporal_train_test_split and ForecastingHorizon) is frozen in "
              "Validation.tla; every pair is executed in 3 (20) random valid contexts as a faulty call and as its control "
              "(same call with only the offending aspect repaired) and TraceValidation.tla requires: rejected with "
              "ValueError / TypeError / NotImplementedError, is_fitted unchanged, control accepted; TLC enumerates fault "
              "sequences (one faulty fit / predict / update at any position of up to 4 calls), each replayed with "
              "several concrete faults against the fault-free sequence. Non-trivial = every pair / sequence.",
-        assumptions=["compat shim", "faults are only generated where the property statement names them; a faulty fit on an already fitted object is not generated"])
+        assumptions=["compat shim", "faults are only generated where the property statement names them; on an already fitted forecaster only faulty DATA are generated for fit (a rejected horizon comes after the call's valid data were taken in; not claimed)"])
 
 
 def replay(ctx, doc):
